@@ -17,8 +17,7 @@ def one(kind, name):
     meta = json.load(open(os.path.join(d, "meta.json")))
     pid = meta["property"]
     if kind == "seeded":
-        checks = meta.get("confirmation", {}).get("detected_by") or [pid]
-        checks = [pid] if pid in checks else checks[:1]
+        checks = [pid] + [c for c in (meta.get("confirmation", {}).get("detected_by") or []) if c != pid]   # others only if its own misses
     else:
         checks = sorted(meta.get("evaluation", {}).get("checks", {pid: 0}).keys())
     wt = tempfile.mkdtemp(prefix="rerun-%s-" % name, dir="/tmp")
@@ -33,6 +32,8 @@ def one(kind, name):
             return name, "PATCH-DOES-NOT-APPLY", {}
         res = {}
         for c in checks:
+            if kind == "seeded" and any(r["exit"] != 0 and not r["no_input"] for r in res.values()):
+                break
             rc, o = sh("VERIF_REPO=%s VERIF_SCRATCH_OUT=%s ./check %s --tier quick" % (wt, out, c), cwd="/verif")
             vio = [l for l in o.split("\n") if l.startswith("VIOLATION")]
             res[c] = {"exit": rc, "violations": len(vio), "no_input": any(l.rstrip().endswith("no-failing-input-found") for l in vio)}
@@ -41,6 +42,8 @@ def one(kind, name):
             verdict = "detected" if ok else "MISSED"
             if ok and all(r["no_input"] for r in res.values() if r["exit"] != 0):
                 verdict = "detected(no-failing-input)"
+            elif ok and res.get(pid, {}).get("exit") == 0:
+                verdict = "detected(by-other-check)"
         else:
             ok = all(r["exit"] == 0 for r in res.values())
             verdict = "silent" if ok else "FALSE-ALARM"
